@@ -332,13 +332,16 @@ def load_config_file(orchestrator: "Orchestrator", config_file: str, verbose: bo
 
 def _apply_repo_ignores_from_config(orchestrator: "Orchestrator") -> None:
     """Honour the top-level ignore list of an explicitly given config file."""
-    from src.linter_config.ignore import IgnoreDirectiveParser
+    from src.linter_config.ignore import IgnoreDirectiveParser, load_ignore_file_patterns
 
     ignore_patterns = orchestrator.config.get("ignore")
     if not isinstance(ignore_patterns, list):
         return
     parser = IgnoreDirectiveParser(orchestrator.project_root)
-    parser.repo_patterns = [str(pattern) for pattern in ignore_patterns]
+    # The explicit file stands in for the project configuration; the project's .thailintignore still applies
+    parser.repo_patterns = load_ignore_file_patterns(orchestrator.project_root) + [
+        str(pattern) for pattern in ignore_patterns
+    ]
     orchestrator.ignore_parser = parser
 
 
